@@ -313,24 +313,56 @@ impl std::fmt::Display for SinkFailure {
 }
 impl std::error::Error for SinkFailure {}
 
+/// The error type of a user sink is the user's choice: one that carries data, a field-less (zero-sized)
+/// one, `std::io::Error`.
+pub trait ErrKind: std::error::Error + Sized + 'static {
+    fn make(k: usize) -> Self;
+}
+impl ErrKind for SinkFailure {
+    fn make(k: usize) -> Self {
+        SinkFailure(k)
+    }
+}
+/// A field-less error type (zero-sized, but inhabited).
+#[derive(Debug)]
+pub struct SinkFull;
+impl std::fmt::Display for SinkFull {
+    fn fmt(&self, f: &mut std::fmt::Formatter<'_>) -> std::fmt::Result {
+        write!(f, "sink full")
+    }
+}
+impl std::error::Error for SinkFull {}
+impl ErrKind for SinkFull {
+    fn make(_k: usize) -> Self {
+        SinkFull
+    }
+}
+impl ErrKind for std::io::Error {
+    fn make(k: usize) -> Self {
+        std::io::Error::new(std::io::ErrorKind::WriteZero, format!("sink failed at operation {k}"))
+    }
+}
+
 /// Implements only the four required methods; records every call; fails on call `fail_at`.
-pub struct UserSink {
+pub struct UserSinkG<E> {
     pub bits: Vec<bool>,
     pub calls: Vec<Value>,
     pub ncalls: usize,
     pub fail_at: Option<usize>,
     pub record: bool,
+    _e: std::marker::PhantomData<E>,
 }
+pub type UserSink = UserSinkG<SinkFailure>;
 
-impl UserSink {
+impl<E: ErrKind> UserSinkG<E> {
     pub fn new(fail_at: Option<usize>, record: bool) -> Self {
-        UserSink { bits: vec![], calls: vec![], ncalls: 0, fail_at, record }
+        UserSinkG { bits: vec![], calls: vec![], ncalls: 0, fail_at, record, _e: std::marker::PhantomData }
     }
-    fn tick(&mut self) -> Result<(), SinkFailure> {
+    fn tick(&mut self) -> Result<(), E> {
         let k = self.ncalls;
         self.ncalls += 1;
         if self.fail_at == Some(k) {
-            Err(SinkFailure(k))
+            Err(E::make(k))
         } else {
             Ok(())
         }
@@ -352,8 +384,8 @@ impl UserSink {
     }
 }
 
-impl BitSink for UserSink {
-    type Error = SinkFailure;
+impl<E: ErrKind> BitSink for UserSinkG<E> {
+    type Error = E;
     fn align_to_byte(&mut self) -> Result<usize, Self::Error> {
         self.tick()?;
         let pad = (8 - self.bits.len() % 8) % 8;
@@ -503,8 +535,8 @@ pub fn cmd_sink(a: &Args) {
 
 // ------------------------------------------------------------------ C12: failing sinks
 
-fn try_write(k: usize, w: &dyn Fn(&mut UserSink) -> Result<(), String>) -> (String, usize, Vec<u8>) {
-    let mut u = UserSink::new(Some(k), false);
+fn try_write<E: ErrKind>(k: usize, w: &dyn Fn(&mut UserSinkG<E>) -> Result<(), String>) -> (String, usize, Vec<u8>) {
+    let mut u = UserSinkG::<E>::new(Some(k), false);
     let r = catch_unwind(AssertUnwindSafe(|| w(&mut u)));
     let outcome = match r {
         Ok(Ok(())) => "ok".to_string(),
@@ -530,14 +562,36 @@ pub fn cmd_faulty(a: &Args) {
     let shards = a.num("shards", 12) as usize;
     let mut sh = Shards::new(&out, "faulty");
     let streams = component_streams(seed, if thorough { 60 } else { 10 });
-    let mut ncomp = 0usize;
-    let mut ntries = 0usize;
-    let mut outcomes = BTreeSet::new();
-    let mut classes = BTreeSet::new();
-    let mut samples = vec![];
+    let mut acc = FaultyAcc::default();
+    // the sink's error type is the user's choice: one carrying data (every stream), a field-less one and
+    // std::io::Error (the first streams)
+    faulty_for::<SinkFailure>("f", &streams, thorough, &mut sh, &mut acc);
+    let few = &streams[..streams.len().min(if thorough { 12 } else { 3 })];
+    faulty_for::<SinkFull>("z", few, thorough, &mut sh, &mut acc);
+    faulty_for::<std::io::Error>("io", &few[..few.len().min(2)], thorough, &mut sh, &mut acc);
+    let FaultyAcc { ncomp, ntries, outcomes, classes, samples } = acc;
+    let files = sh.write(shards);
+    println!(
+        "{}",
+        json!({"components": ncomp, "tries": ntries, "outcomes": outcomes, "classes": classes.len(), "samples": samples,
+               "files": files.iter().map(|p| p.to_string_lossy().to_string()).collect::<Vec<_>>()})
+    );
+}
+
+#[derive(Default)]
+struct FaultyAcc {
+    ncomp: usize,
+    ntries: usize,
+    outcomes: BTreeSet<String>,
+    classes: BTreeSet<String>,
+    samples: Vec<Value>,
+}
+
+fn faulty_for<E: ErrKind>(tag: &str, streams: &[(String, Stream)], thorough: bool, sh: &mut Shards, acc: &mut FaultyAcc) {
+    let FaultyAcc { ncomp, ntries, outcomes, classes, samples } = acc;
     for (ci, (what, s)) in streams.iter().enumerate() {
-        type W<'a> = Box<dyn Fn(&mut UserSink) -> Result<(), String> + 'a>;
-        let mut comps: Vec<(String, W)> = vec![];
+        type W<'a, E> = Box<dyn Fn(&mut UserSinkG<E>) -> Result<(), String> + 'a>;
+        let mut comps: Vec<(String, W<E>)> = vec![];
         comps.push((format!("{what} (whole stream)"), Box::new(move |u| s.write(u).map_err(out_err))));
         for k in 0..s.frame_count() {
             let f = s.frame(k).unwrap();
@@ -554,12 +608,12 @@ pub fn cmd_faulty(a: &Args) {
         comps.push((format!("{what} stream info"), Box::new(move |u| s.stream_info().write(u).map_err(out_err))));
         for (k, (name, w)) in comps.iter().enumerate() {
             // fault-free reference through the same kind of sink
-            let mut full = UserSink::new(None, false);
+            let mut full = UserSinkG::<E>::new(None, false);
             if catch_unwind(AssertUnwindSafe(|| w(&mut full))).map_or(true, |r| r.is_err()) {
                 continue;
             }
             let nops = full.ncalls;
-            let id = format!("f-{ci}-{k}");
+            let id = format!("{tag}-{ci}-{k}");
             let mut lines = vec![json!({"ev": "comp", "id": id, "what": name, "nops": nops, "nbits": full.bits.len(), "bytes": full.bytes()})];
             // every k up to nops + 1; long writes are strided in the quick tier
             let stride = if thorough || nops <= 400 { 1 } else { nops / 400 + 1 };
@@ -568,25 +622,19 @@ pub fn cmd_faulty(a: &Args) {
             ks.sort_unstable();
             ks.dedup();
             for kk in ks {
-                let (outcome, nbits, bytes) = try_write(kk, w.as_ref());
+                let (outcome, nbits, bytes) = try_write::<E>(kk, w.as_ref());
                 outcomes.insert(outcome.clone());
                 lines.push(json!({"ev": "try", "k": kk, "outcome": outcome, "nbits": nbits, "bytes": bytes}));
-                ntries += 1;
+                *ntries += 1;
             }
             lines.push(json!({"ev": "fin"}));
-            classes.insert(format!("{}/{}", name.split(' ').last().unwrap_or(""), if what.contains("precomputed") { "pre" } else { "plain" }));
+            classes.insert(format!("{tag}/{}/{}", name.split(' ').last().unwrap_or(""), if what.contains("precomputed") { "pre" } else { "plain" }));
             if samples.len() < 2 {
                 samples.push(json!({"component": name, "nops": nops, "tries": lines.len() - 2}));
             }
             let cost: u64 = lines.len() as u64 * (full.bits.len() as u64 / 8 + 20);
             sh.push(cost, lines);
-            ncomp += 1;
+            *ncomp += 1;
         }
     }
-    let files = sh.write(shards);
-    println!(
-        "{}",
-        json!({"components": ncomp, "tries": ntries, "outcomes": outcomes, "classes": classes.len(), "samples": samples,
-               "files": files.iter().map(|p| p.to_string_lossy().to_string()).collect::<Vec<_>>()})
-    );
 }
